@@ -163,6 +163,13 @@ def _history_corpus():
     b = lambda sdl, ign=False: {"op": "build", "sdl": sdl, "ignore_extensions": ign}  # noqa: E731
     # seeded C11-a: extend enum appended in place to the caller's EnumType
     out.append({"additional": HIST_ADDITIONAL, "label": "history-enum", "steps": [b(ext_enum), b(ext_enum), b(HIST_BASE)]})
+    # extend_schema with a type / directive defined twice in the extension document
+    # (build_schema rejects such documents in _collect_definitions: C11_reject_duplicates)
+    for dup in ("input X { a: Int }\ninput X { b: Int }\nextend type Query { x(i: X): Int }",
+                "directive @d on FIELD\ndirective @d on QUERY"):
+        out.append({"additional": HIST_ADDITIONAL, "label": "history-extend-duplicate-definitions",
+                    "steps": [b(HIST_BASE), {"op": "extend", "base": HIST_BASE, "sdl": dup, "model": False,
+                                              "expect_reject": 2}]})
     for name, text in HIST_EXTENSIONS:
         doc = HIST_BASE + "\n" + text
         out.append({"additional": HIST_ADDITIONAL, "label": "history-" + name,
@@ -268,6 +275,8 @@ def _steps_of(case, obs):
     if "steps" in case:
         out = []
         for st, o in zip(case["steps"], obs["steps"]):
+            if st.get("model") is False:
+                continue      # outside the build_schema model: model-free check only
             term = "(%s, %s, %s)" % (_doc_term(st["sdl"], st.get("base")),
                                      ser.cbool(bool(st.get("ignore_extensions"))), add)
             out.append((term, o))
@@ -325,6 +334,11 @@ def direct_checks(case, obs):
         if obs.get("mutated"):
             out.append(("additional-types-unchanged: the caller's type objects differ after call(s) %s"
                         % obs["mutated"], None))
+        for n, (st, o) in enumerate(zip(case["steps"], obs["steps"])):
+            if st.get("expect_reject") is not None and not (
+                    o.get("exc") == "rejected" and o.get("kind") == st["expect_reject"]):
+                out.append(("extend_schema-rejects-duplicate-definitions: call %d" % n,
+                            "extend-schema-duplicate-definitions" if "schema" in o else None))
         for n, o in enumerate(obs["steps"]):
             if o.get("exc") in ("other", "graphql-other", "recursion", "timeout", "died"):
                 out.append(("no-unrelated-exception: call %d %s" % (n, o.get("type", o.get("exc"))), None))
